@@ -8,7 +8,7 @@ import zlib
 from . import mserver, proto
 
 CLASSES = ["arbitrary", "truncate", "rdlen_lie", "huge_rdata", "many_records", "bad_prefs", "txt_chunks", "name_tricks",
-           "codec_letters", "empty", "boundary_payload", "step_payload", "counts_lie", "wrong_type", "rcode", "zlib", "raw", "frag_flood", "compressed_many"]
+           "codec_letters", "empty", "boundary_payload", "step_payload", "counts_lie", "wrong_type", "rcode", "zlib", "raw", "frag_flood", "compressed_many", "names_fill_exactly", "cut_after_records"]
 
 
 def rb(rng, n):
@@ -35,6 +35,24 @@ def host_name(rng, n, letter=b"h", alphabet=proto.B32):
     """A legal encoded host name of about n chars: letter + data, dotted, + '.xy'."""
     body = letter + bytes(rng.choice(alphabet) for _ in range(max(n - 4, 0)))
     labels = proto.dotsplit(body, 57) + [b"xy"]
+    return proto.encode_name(labels)
+
+
+def name_of_len(rng, n, first=None):
+    """Wire form of a host name whose dotted presentation form has exactly n characters (1 <= n <= 253)."""
+    n = max(1, min(253, n))
+    labels = []
+    left = n
+    while left > 0:
+        l = min(63, left)
+        if left - l == 1:
+            l -= 1
+        labels.append(bytes(rng.choice(proto.B32) for _ in range(l)))
+        left -= l
+        if left > 0:
+            left -= 1
+    if first is not None:
+        labels[0] = bytes([first]) + labels[0][1:]
     return proto.encode_name(labels)
 
 
@@ -250,6 +268,45 @@ def gen(rng, q, cls, step, ctx):
             if sum(len(x) for x in rrs) > rng.choice([3900, 3900, 8000, 60000]):
                 break
         return answer(q, rrs, qtype=t if t != qt and rng.random() < 0.5 else None)
+    if cls == "names_fill_exactly":
+        # MX/SRV names whose decoded list ("name\0name\0...") ends exactly at, one short of, or one past the end of the buffers
+        # the client decodes into (4096 and 4095 bytes during the handshake)
+        t = qt if qt in (proto.T_MX, proto.T_SRV) else rng.choice([proto.T_MX, proto.T_SRV])
+        total = rng.choice([4096, 4096, 4095, 4095, 4094, 4097, 4098, 4093])
+        per = rng.choice([254, 254, 64, 128, 200, 32])           # strlen + 1 of the regular names
+        lens = [per - 1] * (total // per)
+        rest = total - per * len(lens)
+        if rest == 1:
+            lens[-1] -= 1
+            rest = 2
+        if rest:
+            lens.append(rest - 1)
+        rrs = []
+        for i, n in enumerate(lens):
+            rrs.append(rr(PTR, t, (struct.pack(">H", 10 * (i + 1)) if t == proto.T_MX else struct.pack(">HHH", 10 * (i + 1), 0, 5060)) + name_of_len(rng, n)))
+        if rng.random() < 0.3:
+            rng.shuffle(rrs)
+        return answer(q, rrs, qtype=t if t != qt else None)
+    if cls == "cut_after_records":
+        # an MX/SRV answer that breaks off after some complete records (ANCOUNT larger than what is there, the datagram cut inside
+        # a later record, or a later RDLENGTH pointing behind the end): useless as a whole; whatever was read from the records in
+        # front of the break must not survive into the decoding of later answers
+        t = qt if qt in (proto.T_MX, proto.T_SRV) else rng.choice([proto.T_MX, proto.T_SRV])
+        n = rng.choice([3, 4, 6, 12, 40])
+        rrs = []
+        for i in range(n):
+            nm = name_of_len(rng, rng.choice([20, 60, 150, 253]), first=rng.choice(b"hijk"))
+            rrs.append(rr(PTR, t, (struct.pack(">H", 10 * (i + 1)) if t == proto.T_MX else struct.pack(">HHH", 10 * (i + 1), 0, 5060)) + nm))
+        how = rng.randrange(3)
+        keep = rng.randint(2, n - 1)
+        if how == 0:
+            return answer(q, rrs[:keep], ancount=keep + rng.choice([1, 2, 50]), qtype=t if t != qt else None)
+        if how == 1:
+            d = answer(q, rrs[:keep + 1], ancount=n, qtype=t if t != qt else None)
+            return d[:len(d) - rng.randint(1, len(rrs[keep]) - 1)]
+        bad = rrs[keep]
+        bad = bad[:10] + struct.pack(">H", rng.choice([300, 4096, 65535])) + bad[12:]
+        return answer(q, rrs[:keep] + [bad], qtype=t if t != qt else None)
     if cls == "raw":
         cmd = rng.choice([0x10, 0x20, 0x30, 0x00, 0x40, 0xF0])
         n = rng.choice([0, 1, 2, 12, 15, 16, 17, 100, 1200, 4096, 9000, 65000])
